@@ -141,7 +141,7 @@ def make_env(name, env_cfg, log=None, on_step=None):
     else:
         space = RecordingBox(env_cfg.get("act_low", [-1.0]), env_cfg.get("act_high", [1.0]), seed=space_seed)
     env = ScriptedEnv(script, seed=sseed, obs_dim=int(env_cfg.get("obs_dim", 3)), action_space=space,
-                      log=log, on_step=on_step)
+                      log=log, on_step=on_step, obs_dtype="float64" if env_cfg.get("obs64") else "float32")
     space.clock = lambda: env.n_steps
     return env, space
 
